@@ -448,6 +448,12 @@ def check_scenario(sc, obs, add):
                 break
             if op['op'] in ('imap', 'imap_unordered') and op.get('consume', 'all') != 'all' and op.get('abandon') != 'close':
                 lazy_open = True
+    # a second pool of the same process, used in between: its calls are calls like any other (correct results, no failure)
+    for opi, (op, oo) in enumerate(zip(sc['ops'], obs.get('ops', []))):
+        if op['op'] == 'other_pool' and (oo.get('outcome') != 'ok' or oo.get('other_wrong')):
+            for p in ('C01', 'C02', 'C03', 'C12', 'C15', 'C16'):
+                add(p, 'second_pool_unaffected', {'op': opi, 'raised': oo.get('exc'), 'wrong': oo.get('other_wrong')})
+            break
     for opi in range(len(obs.get('ops', []))):
         check_op(sc, obs, opi, add)
         check_failure_op(sc, obs, opi, add, latency_bound=sc.get('latency_bound'))
